@@ -58,12 +58,11 @@ var emptyCodeHash = crypto.Keccak256(nil)
 
 // op is one node of the script tree, encoded as a heterogeneous JSON array (see package comment).
 type op struct {
-	K     string
-	A, B  int64 // addresses / slot
-	V     int64 // amount, nonce, code id, value, gas
-	Body  []op
-	Flag  bool
-	Sends [][3]int64
+	K    string
+	A, B int64 // addresses / slot
+	V    int64 // amount, nonce, code id, value, gas
+	Body []op
+	Flag bool
 }
 
 func (o op) MarshalJSON() ([]byte, error) {
@@ -80,18 +79,14 @@ func (o op) MarshalJSON() ([]byte, error) {
 		return json.Marshal([]interface{}{o.K})
 	case "ar", "sr":
 		return json.Marshal([]interface{}{o.K, o.V})
-	case "fr":
+	case "bs", "is":
+		return json.Marshal([]interface{}{o.K, o.A, o.B, o.V})
+	case "fr", "pc":
 		body := o.Body
 		if body == nil {
 			body = []op{}
 		}
 		return json.Marshal([]interface{}{o.K, body, o.Flag})
-	case "pc":
-		sends := o.Sends
-		if sends == nil {
-			sends = [][3]int64{}
-		}
-		return json.Marshal([]interface{}{o.K, sends, o.Flag})
 	}
 	return nil, fmt.Errorf("unknown op %q", o.K)
 }
@@ -134,12 +129,29 @@ func (o *op) UnmarshalJSON(bz []byte) error {
 			return err
 		}
 		return json.Unmarshal(raw[2], &o.Flag)
+	case "bs", "is":
+		o.A, o.B, o.V = num(1), num(2), num(3)
 	case "pc":
 		if len(raw) != 3 {
 			return fmt.Errorf("bad precompile op")
 		}
-		if err := json.Unmarshal(raw[1], &o.Sends); err != nil {
+		// body elements: ops, or bare [from, to, amount] triples (older corpus entries) = bank sends
+		var items []json.RawMessage
+		if err := json.Unmarshal(raw[1], &items); err != nil {
 			return err
+		}
+		o.Body = []op{}
+		for _, it := range items {
+			var tri [3]int64
+			if err := json.Unmarshal(it, &tri); err == nil {
+				o.Body = append(o.Body, op{K: "bs", A: tri[0], B: tri[1], V: tri[2]})
+				continue
+			}
+			var sub op
+			if err := json.Unmarshal(it, &sub); err != nil {
+				return err
+			}
+			o.Body = append(o.Body, sub)
 		}
 		return json.Unmarshal(raw[2], &o.Flag)
 	default:
@@ -245,7 +257,8 @@ func (r *runner) bankCtx() sdk.Context {
 	return r.ctx
 }
 
-func (r *runner) exec(ops []op) {
+// exec runs ops; cctx is the cache ctx of the precompile body the ops are direct elements of (nil: none).
+func (r *runner) exec(ops []op, cctx *sdk.Context) {
 	db := r.db
 	for _, o := range ops {
 		a, b := addrOf(o.A), addrOf(o.B)
@@ -296,9 +309,31 @@ func (r *runner) exec(ops []op) {
 			v := db.GetState(a, hashOf(o.B))
 			c := db.GetCommittedState(a, hashOf(o.B))
 			r.obs.Views = append(r.obs.Views, [3]string{fmt.Sprint(-(o.A*100 + o.B)), v.Big().String(), c.Big().String()})
+		case "is": // an ERC20-style update: slot += delta
+			cur := db.GetState(a, hashOf(o.B)).Big()
+			db.SetState(a, hashOf(o.B), gethcommon.BigToHash(new(big.Int).Add(cur, big.NewInt(o.V))))
+		case "bs":
+			if cctx == nil || o.V <= 0 {
+				break
+			}
+			from, to := eth.EthAddrToNibiruAddr(addrOf(o.A)), eth.EthAddrToNibiruAddr(addrOf(o.B))
+			coins := sdk.NewCoins(sdk.NewCoin("unibi", sdkmath.NewInt(o.V)))
+			bk := r.deps.App.BankKeeper
+			// an insufficient balance fails inside the bank keeper without any write
+			if o.V%2 == 0 {
+				// even amounts travel through the evm module account (as FunToken escrow moves do):
+				// the other two Sync-ing bank entry points
+				if err := bk.SendCoinsFromAccountToModule(*cctx, from, "evm", coins); err == nil {
+					if err := bk.SendCoinsFromModuleToAccount(*cctx, "evm", to, coins); err != nil {
+						r.obs.CommitErr = "module hop: " + err.Error()
+					}
+				}
+			} else {
+				_ = bk.SendCoins(*cctx, from, to, coins)
+			}
 		case "fr":
 			snap := db.Snapshot()
-			r.exec(o.Body)
+			r.exec(o.Body, nil)
 			if o.Flag {
 				db.RevertToSnapshot(snap)
 			}
@@ -309,26 +344,8 @@ func (r *runner) exec(ops []op) {
 				db.RevertToSnapshot(snap)
 				break
 			}
-			for _, s := range o.Sends {
-				if s[2] <= 0 {
-					continue
-				}
-				from, to := eth.EthAddrToNibiruAddr(addrOf(s[0])), eth.EthAddrToNibiruAddr(addrOf(s[1]))
-				coins := sdk.NewCoins(sdk.NewCoin("unibi", sdkmath.NewInt(s[2])))
-				bk := r.deps.App.BankKeeper
-				// an insufficient balance fails inside the bank keeper without any write
-				if s[2]%2 == 0 {
-					// even amounts travel through the evm module account (as FunToken escrow moves do):
-					// the other two Sync-ing bank entry points
-					if err := bk.SendCoinsFromAccountToModule(cacheCtx, from, "evm", coins); err == nil {
-						if err := bk.SendCoinsFromModuleToAccount(cacheCtx, "evm", to, coins); err != nil {
-							r.obs.CommitErr = "module hop: " + err.Error()
-						}
-					}
-				} else {
-					_ = bk.SendCoins(cacheCtx, from, to, coins)
-				}
-			}
+			// the body: bank sends on the cache ctx, EVM writes, nested frames and nested precompile calls
+			r.exec(o.Body, &cacheCtx)
 			if o.Flag {
 				db.RevertToSnapshot(snap)
 			}
@@ -363,7 +380,7 @@ func runCase(deps *evmtest.TestDeps, in c04Input, viaOnRunStart bool) c04Obs {
 	db := deps.EvmKeeper.NewStateDB(ctx, statedb.NewEmptyTxConfig(gethcommon.Hash{}))
 	r := &runner{deps: deps, ctx: ctx, db: db, obs: &obs, viaOnRunStart: viaOnRunStart}
 	obs.Panic = Recover(func() {
-		r.exec(in.Script)
+		r.exec(in.Script, nil)
 		obs.Logs = len(db.Logs())
 		obs.Refund = db.GetRefund()
 		for id := int64(1); id <= nAddr; id++ {
@@ -562,7 +579,35 @@ func (g *gen) precompile() []op {
 		sends = append(sends, [3]int64{f, t, amt})
 		seen[f], seen[t] = true, true
 	}
-	out := []op{{K: "pc", Sends: sends, Flag: r.Chance(1, 4)}}
+	var pbody []op
+	for _, sd := range sends {
+		pbody = append(pbody, op{K: "bs", A: sd[0], B: sd[1], V: sd[2]})
+	}
+	sendOnly := true
+	if r.Chance(1, 3) {
+		// the body also writes EVM state, as FunToken's ERC20 mint / burn / transfer do, possibly in a
+		// nested frame or together with a nested precompile call
+		sendOnly = false
+		extra := []op{{K: "is", A: 4, B: int64(r.Range(1, 3)), V: int64(r.Range(1, 9))}, {K: "is", A: 4, B: 3, V: int64(r.Range(1, 9))}, {K: "lg"}}
+		if r.Chance(1, 3) {
+			extra = append(extra, op{K: "sn", A: g.addr(), V: int64(r.Range(0, 5))})
+		}
+		if r.Chance(1, 3) {
+			extra = append(extra, op{K: "fr", Body: []op{{K: "is", A: 4, B: int64(r.Range(1, 3)), V: int64(r.Range(1, 9))}, g.simple()}, Flag: r.Chance(1, 2)})
+		}
+		if r.Chance(1, 4) {
+			extra = append(extra, op{K: "ab", A: g.addr(), V: g.amount()})
+		}
+		if g.calls < 11 && r.Chance(1, 4) {
+			g.calls++
+			extra = append(extra, op{K: "pc", Body: []op{{K: "bs", A: g.addr(), B: g.addr(), V: int64(r.Range(1, 20))}, {K: "is", A: 4, B: 2, V: 1}}, Flag: r.Chance(1, 3)})
+		}
+		// interleave
+		pos := r.Intn(len(pbody) + 1)
+		pbody = append(pbody[:pos:pos], append(extra, pbody[pos:]...)...)
+	}
+	_ = sendOnly
+	out := []op{{K: "pc", Body: pbody, Flag: r.Chance(1, 4)}}
 	if r.Chance(3, 5) { // read both views right after the return
 		for a := range seen {
 			_ = a
@@ -599,7 +644,7 @@ func (g *gen) body(depth, maxLen int) []op {
 			if r.Chance(1, 3) {
 				inner = append(inner, op{K: "ss", A: 4, B: 1, V: int64(r.Range(0, 3))})
 			}
-			inner = append(inner, op{K: "pc", Sends: [][3]int64{{1, g.addr(), int64(r.Range(1, 9))}}, Flag: false})
+			inner = append(inner, op{K: "pc", Body: []op{{K: "bs", A: 1, B: g.addr(), V: int64(r.Range(1, 9))}}, Flag: false})
 			for id := int64(1); id <= 3; id++ {
 				inner = append(inner, op{K: "to", A: id})
 			}
@@ -674,7 +719,14 @@ const U = 1_000_000_000_000
 // the historic failure shapes (F2, F2b, F2c, F2d, the probe16 script) and the call limit
 func openers() []c04Input {
 	v := initVariants[0]
-	pc := func(fails bool, sends ...[3]int64) op { return op{K: "pc", Sends: sends, Flag: fails} }
+	pc := func(fails bool, sends ...[3]int64) op {
+		var b []op
+		for _, sd := range sends {
+			b = append(b, op{K: "bs", A: sd[0], B: sd[1], V: sd[2]})
+		}
+		return op{K: "pc", Body: b, Flag: fails}
+	}
+	pcb := func(fails bool, body ...op) op { return op{K: "pc", Body: body, Flag: fails} }
 	fr := func(rev bool, body ...op) op { return op{K: "fr", Body: body, Flag: rev} }
 	var many []op
 	for i := 0; i < 12; i++ {
@@ -689,6 +741,12 @@ func openers() []c04Input {
 			fr(true, op{K: "sn", A: 1, V: 4}, pc(false, [3]int64{1, 2, 30}), op{K: "ss", A: 1, B: 3, V: 2}),
 			pc(false, [3]int64{1, 3, 10}), {K: "to", A: 1}, {K: "to", A: 3}, {K: "sn", A: 1, V: 6}},
 		many,
+		// a precompile body that moves coins AND writes EVM state (ERC20-style slot updates, a log, a nested
+		// frame, a nested precompile call) inside a frame that reverts; then the same kind of call kept
+		{fr(true, pcb(false, op{K: "bs", A: 1, B: 2, V: 7}, op{K: "is", A: 4, B: 2, V: 7}, op{K: "is", A: 4, B: 3, V: 7}, op{K: "lg"},
+			fr(true, op{K: "is", A: 4, B: 2, V: 100}), op{K: "sn", A: 2, V: 1}), op{K: "ss", A: 4, B: 1, V: 3}),
+			pcb(false, op{K: "bs", A: 1, B: 2, V: 3}, op{K: "is", A: 4, B: 2, V: 3}, op{K: "is", A: 4, B: 3, V: 3}, op{K: "lg"}), {K: "rs", A: 4, B: 2}},
+		{pcb(false, op{K: "is", A: 4, B: 2, V: 5}, pcb(true, op{K: "bs", A: 1, B: 3, V: 4}, op{K: "is", A: 4, B: 2, V: 9}), op{K: "bs", A: 1, B: 2, V: 1}), {K: "to", A: 1}, {K: "rs", A: 4, B: 2}},
 		// the pre-run flush of a precompile call fails half-way (credit to a fresh address, then to a blocked
 		// module account); the frame reverts, the outer frame goes on: nothing of the flush may survive
 		{fr(true, op{K: "sb", A: 1, V: 12 * U}, op{K: "ab", A: 3, V: 5 * U}, op{K: "ab", A: 6, V: 7 * U}, pc(false), op{K: "to", A: 3}),
